@@ -194,3 +194,12 @@ package internal_planner
 //@ func (*GenericPlanner).WrapProcess$1 [C12]
 //@   flag defers-first=shared.TamePanic
 //@   flag may-panic
+
+// The limit stage forwards at most `limit` entries: the slice it cuts off a batch
+// is always inside the batch, for every limit (also zero or negative) and every
+// batch size.
+//@ fieldfunc github.com/metrico/qryn/reader/logql/logql_transpiler_v2/shared.PlannerContext.CancelCtx()
+//@   modifies nothing
+//@ func (*LimitPlanner).Process$2 [C12]
+//@   requires sent >= 0 && (limit >= 0 ==> sent <= limit)
+//@   check never-more-than-limit: limit >= 0 ==> sent <= limit
